@@ -77,6 +77,7 @@ type Path struct {
 	lastNow *Term
 	tickers []*Chan
 	deadlockLabel string
+	shortReads    bool
 	curFr  *frame
 	pc     []*Term
 
